@@ -184,6 +184,7 @@ MUTANTS += [
 
 MIO = US + "workers/socket/mio/"
 UR = US + "workers/socket/uring/"
+MI = US + "workers/socket/mio/"
 MUTANTS += [
  dict(id="C06-uring-sendable-error-ungated", props=["C06"], expect={"C06": r"guard#uring#sendable_error"},
       edits=[(UR+"mod.rs", "                        if self.validator.connection_id_valid(addr, connection_id) {\n                            let response = ErrorResponse {",
@@ -235,6 +236,13 @@ MUTANTS += [
       edits=[(UR+"send_buffers.rs", "self.name_v6.sin6_port = addr.port().to_be();", "self.name_v6.sin6_port = addr.port().to_le();")]),
  dict(id="C06-scrape-reversed", props=["C06"], expect={"C06": r"scrape#order"},
       edits=[(US+"swarm.rs", "        for info_hash in request.info_hashes {\n            let torrent_map_shard = self.get_shard(&info_hash);", "        for info_hash in request.info_hashes.into_iter().rev() {\n            let torrent_map_shard = self.get_shard(&info_hash);")]),
+ dict(id="C06-mio-resend-requeues", props=["C06"], expect={"C06": r"resend#mio#retry_once"},
+      edits=[(MI+"socket.rs", "self.send_response(shared, addr, response, true);", "self.send_response(shared, addr, response, false);")]),
+ dict(id="C06-mio-queue-even-when-disabled", props=["C06"], expect={"C06": r"resend#mio#queue_only_failed"},
+      edits=[(MI+"socket.rs", "                    if !disable_resend_buffer\n                        && ((err.raw_os_error()", "                    if (!disable_resend_buffer || shared.config.network.resend_buffer_max_len > 1)\n                        && ((err.raw_os_error()")]),
+ dict(id="C06-mio-queue-after-success", props=["C06"], expect={"C06": r"resend#mio#(queue_only_failed|who_touches_buffer)"},
+      edits=[(MI+"socket.rs", "            Ok(_) => (),\n            Err(err) => match self.opt_resend_buffer.as_mut() {",
+              "            Ok(_) => {\n                if let Some(b) = self.opt_resend_buffer.as_mut() {\n                    if b.is_empty() && !disable_resend_buffer {\n                        b.push((canonical_addr, response));\n                    }\n                }\n            }\n            Err(err) => match self.opt_resend_buffer.as_mut() {")]),
 ]
 
 HC = "crates/http/src/workers/socket/"
@@ -884,6 +892,32 @@ MUTANTS += [
                         .ok_or(anyhow::anyhow!("pending scrape not found in slab"))?;
 """, """                    let pending_response = &mut pending_responses[pending_scrape_id.0 as usize];
 """)]),
+ dict(id="C12-ws-unparsable-message-scrapes", props=["C12"], expect={"C12": r"reject#ws#parse_gate"},
+      edits=[(WCN, """                            self.send_error_response("Invalid request".into(), None, None)
+                                .await?;
+                        }""", """                            self.send_error_response("Invalid request".into(), None, None)
+                                .await?;
+                            self.handle_scrape_request(ScrapeRequest {
+                                action: ScrapeAction::Scrape,
+                                info_hashes: None,
+                            })
+                            .await?;
+                        }""")]),
+ dict(id="C12-http-read-request-default-on-error", props=["C12"], expect={"C12": r"reject#http#parse_gate"},
+      edits=[(HC+"connection.rs", """                Err(RequestParseError::Other(err)) => {
+                    ::log::debug!("Failed parsing request: {:#}", err);
+                }""", """                Err(RequestParseError::Other(err)) => {
+                    ::log::debug!("Failed parsing request: {:#}", err);
+
+                    if self.request_buffer_position > 4096 {
+                        return Ok((
+                            Request::Scrape(aquatic_http_protocol::request::ScrapeRequest {
+                                info_hashes: Vec::new(),
+                            }),
+                            None,
+                        ));
+                    }
+                }""")]),
 ]
 
 # renames of parameters / captured locals must not change any verdict (names are pinned by position, tables/pinned_names.json)
